@@ -23,7 +23,7 @@ Theorem ok_C14_sound njobs tr vals table fc late : ok_C14 njobs tr vals table fc
     is_path (ws_of (proj j tr)) = true /\ starts_ready (ws_of (proj j tr)) = true /\   (* forward only, from READY *)
     cur s = Some c /\ terminal c = true /\                               (* ends in a terminal status *)
     lookup_row j table = [(c, ro)] /\                                    (* exactly one row, with that status *)
-    (straddles j tr = true -> In CANCELLING (ws_of (proj j tr))) /\      (* running across the deadline: told to cancel *)
+    (straddles j tr = true -> told_before_s2 j tr = true) /\           (* running across the deadline: told to cancel in time *)
     (In CANCELLING (ws_of (proj j tr)) -> c = CANCELLED) /\              (* ... and reported CANCELLED *)
     (returned s = true -> lookup_val j vals = Some ro).                  (* the value it returned is the one in the table *)
 Proof.
@@ -38,10 +38,10 @@ Proof.
   destruct (lookup_row j table) as [|[rs ro] [|? ?]] eqn:L; try discriminate.
   destruct (st_eqb rs c) eqn:Es; cbn [negb] in H; [|discriminate]. apply st_eqb_eq in Es. subst rs.
   destruct (forward_only _ _ R) as (W1 & W2 & W3). rewrite <- W1 in H.
-  destruct (straddles j tr && negb (mem_st CANCELLING (ws_of (proj j tr)))) eqn:S6; [discriminate|].
+  destruct (straddles j tr && negb (told_before_s2 j tr)) eqn:S6; [discriminate|].
   destruct (mem_st CANCELLING (ws_of (proj j tr)) && st_eqb c DONE) eqn:S7; [discriminate|].
   exists s, c, ro. repeat split; try assumption.
-  - intros Hs. rewrite Hs in S6. cbn in S6. apply negb_false_iff in S6. apply mem_st_In. exact S6.
+  - intros Hs. rewrite Hs in S6. cbn in S6. apply negb_false_iff in S6. exact S6.
   - intros Hc. apply mem_st_In in Hc. rewrite Hc in S7. cbn in S7.
     destruct c; try discriminate; try reflexivity.
   - intros Hr. rewrite Hr in H. destruct (lookup_val j vals) as [v|]; [|discriminate].
